@@ -181,11 +181,17 @@ def crate_path_stage(driver, seed, tier):
               'schema': r.startswith('ok ') or r.startswith('invalid ZSTSequence'),
               'entries': r == 'ok',
               'decinit': r.startswith('ok') and r.endswith('init=%s\tskipped=ok' % ('1' if it.get('init') else '-'))}[op]
+        if op == 'rt' and r.startswith('skip'):
+            run['rt:skip'] += 1          # counted apart; too many of them and the stage says nothing (below)
+            continue
         run[op + (':ok' if ok else ':bad')] += 1
         if not ok:
             failures.append({'class': 'crate-path-' + op, 'key': it['name'],
                              'what': 'crate-path build (crate = "%s"): %s of %s on %s: %s' % (REX, op, it['name'], arg[:120], r[:300]),
                              'item': I.rust_item(it, derives=ALL3)})
+    if run['rt:skip'] > run['rt:ok']:
+        disagreements.append({'what': 'crate-path build: %d of %d round trips were skipped by the harness, so the stage decides too little'
+                                      % (run['rt:skip'], run['rt:skip'] + run['rt:ok'])})
     stats['crate_path_run'] = dict(run)
     stats['crate_path_sample'] = [l for l in rex_fix(I.rust_item(items[4], derives=ALL3)).split('\n')[:4]]
     return stats, disagreements, failures
